@@ -17,11 +17,19 @@ type FrameJ struct {
 	Int       int64  `json:"int,omitempty"`
 	Versioned bool   `json:"versioned,omitempty"`
 	Ver       vk.Hex `json:"ver,omitempty"`
+	// FillLen > 0 (Payload empty): the payload is FillLen bytes expanded from FillKey (see Fill in
+	// gen_c06.go). Keeps cases with payloads of many KB / MB small on disk and cheap to hash.
+	FillLen int    `json:"fill_len,omitempty"`
+	FillKey vk.U64 `json:"fill_key,omitempty"`
 }
 
 // PB converts to the working form.
 func (f FrameJ) PB() Frame {
-	return Frame{Kind: f.Kind, Payload: f.Payload, Int: f.Int, Versioned: f.Versioned, Ver: f.Ver}
+	p := []byte(f.Payload)
+	if f.FillLen > 0 && len(p) == 0 && f.Kind != "int64" && f.Kind != "empty" {
+		p = Fill(f.Kind, f.FillLen, uint64(f.FillKey))
+	}
+	return Frame{Kind: f.Kind, Payload: p, Int: f.Int, Versioned: f.Versioned, Ver: f.Ver}
 }
 
 var payloadLens = []int{0, 1, 2, 31, 32, 33, 127, 128, 129, 255, 256, 1000, 4095, 4096, 16383, 16384, 16385}
